@@ -787,9 +787,9 @@ def fam_wincmd(tier, outdir):
     """C18: enumerate argument vectors / environments, run the real Windows string code, validate every record with TLC."""
     t0 = time.time()
     exe = vlib.build_win()
-    modes = [["single", "4"], ["pair", "2"], ["triple", "1"], ["env"], ["fault"], ["len", "300"], ["random", "400", str(SEED), "120"]]
+    modes = [["single", "4"], ["pair", "2"], ["triple", "1"], ["env"], ["envrace"], ["fault"], ["len", "300"], ["random", "400", str(SEED), "120"]]
     if tier == "thorough":
-        modes = [["single", "5"], ["pair", "3"], ["triple", "2"], ["env"], ["fault"], ["len", "1100"], ["random", "4000", str(SEED), "900"]]
+        modes = [["single", "5"], ["pair", "3"], ["triple", "2"], ["env"], ["envrace"], ["fault"], ["len", "1100"], ["random", "4000", str(SEED), "900"]]
     env = dict(os.environ); env.update(vlib.ASAN_ENV)
     shards, bad = [], []
     nrec = 0
